@@ -305,7 +305,14 @@ func (e *Engine) registerIfaceImpls() {
 // so that their datatypes are declared before the spec text in every query.
 func (e *Engine) forceSorts() {
 	re := regexp.MustCompile(`[( ](?:I\.)?([a-z][a-z0-9]*)\.([A-Z][A-Za-z0-9]*)\b`)
-	for _, m := range re.FindAllStringSubmatch(e.Spec.Text+e.Spec.PreText, -1) {
+	// the sorts of ghost globals are declared in every query (ghost state is visible across packages)
+	ghostSorts := ""
+	for _, gs := range e.Contracts.Globals {
+		if strings.HasPrefix(gs.Kind, "ghost:") {
+			ghostSorts += " " + strings.TrimPrefix(gs.Kind, "ghost:") + " "
+		}
+	}
+	for _, m := range re.FindAllStringSubmatch(e.Spec.Text+e.Spec.PreText+ghostSorts, -1) {
 		tp := e.pkgByShortName(nil, m[1])
 		if p, ok := e.PkgByName[m[1]]; ok {
 			tp = p.Types
